@@ -12,7 +12,7 @@ TInitFails == IF "INITFAILS" \in DOMAIN IOEnv THEN IOEnv.INITFAILS = "1" ELSE FA
 TLatchSkips == TRUE
 
 VARIABLES mu, cached, latch, ppc, got, paramsWrittenBy, readingParams, l
-A == INSTANCE Analyzer WITH Passes <- TPasses, InitFails <- TInitFails, LatchSkips <- TLatchSkips
+A == INSTANCE Analyzer WITH Passes <- TPasses, InitFails <- TInitFails, LatchSkips <- TLatchSkips, UnlockAlways <- TRUE
 avars == <<mu, cached, latch, ppc, got, paramsWrittenBy, readingParams>>
 IsEv(e) == l <= Len(Trace) /\ Trace[l].ev = e /\ l' = l + 1
 T == Trace[l]
